@@ -76,7 +76,10 @@ def render_sdl(s, order=None, explicit_roots=False, extensions=False):
                 dep = ""
                 if len(f) > 2 and f[2] is not None:
                     dep = " @deprecated" if f[2] == "" else ' @deprecated(reason: "%s")' % f[2]
-                fs.append("%s: %s%s" % (f[0], f[1], dep))
+                args = ""
+                if len(f) > 3 and f[3]:
+                    args = "(%s)" % ", ".join("%s: %s%s" % (a[0], a[1], (" = %s" % a[2]) if len(a) > 2 and a[2] is not None else "") for a in f[3])
+                fs.append("%s%s: %s%s" % (f[0], args, f[1], dep))
             impl = (" implements " + " & ".join(d["implements"])) if d.get("implements") else ""
             if extensions and key == "objects":
                 if impl:
@@ -90,7 +93,7 @@ def render_sdl(s, order=None, explicit_roots=False, extensions=False):
             out.append("union %s = %s" % (n, " | ".join(s["unions"][n])))
         elif key == "inputs":
             d = s["inputs"][n]
-            out.append("input %s%s { %s }" % (n, " @oneOf" if d.get("one_of") else "", " ".join("%s: %s" % (a, b) for (a, b) in d["fields"])))
+            out.append("input %s%s { %s }" % (n, " @oneOf" if d.get("one_of") else "", " ".join("%s: %s%s" % (x[0], x[1], (" = %s" % x[2]) if len(x) > 2 and x[2] is not None else "") for x in d["fields"])))
     return "\n".join(out + tail)
 
 
@@ -108,10 +111,11 @@ def render_json(s, order=None, wrap_data=False, with_builtin=True, is_one_of_key
             fs = []
             for f in d["fields"]:
                 dep = f[2] if len(f) > 2 else None
+                jargs = [{"name": a[0], "type": typeref(a[1], s), "defaultValue": (a[2] if len(a) > 2 else None)} for a in (f[3] if len(f) > 3 and f[3] else [])]
                 if isinstance(dep, tuple):   # ("false", reason): isDeprecated false although a reason string is present
-                    fs.append({"name": f[0], "args": [], "type": typeref(f[1], s), "isDeprecated": False, "deprecationReason": dep[1]})
+                    fs.append({"name": f[0], "args": jargs, "type": typeref(f[1], s), "isDeprecated": False, "deprecationReason": dep[1]})
                     continue
-                fs.append({"name": f[0], "args": [], "type": typeref(f[1], s), "isDeprecated": dep is not None, "deprecationReason": (dep or None) if dep is not None else None})
+                fs.append({"name": f[0], "args": jargs, "type": typeref(f[1], s), "isDeprecated": dep is not None, "deprecationReason": (dep or None) if dep is not None else None})
             t = {"kind": "OBJECT" if key == "objects" else "INTERFACE", "name": n, "fields": fs}
             if key == "objects":
                 t["interfaces"] = [{"kind": "INTERFACE", "name": i, "ofType": None} for i in d.get("implements", [])]
@@ -122,7 +126,7 @@ def render_json(s, order=None, wrap_data=False, with_builtin=True, is_one_of_key
             types.append({"kind": "UNION", "name": n, "possibleTypes": [{"kind": "OBJECT", "name": m, "ofType": None} for m in s["unions"][n]]})
         elif key == "inputs":
             d = s["inputs"][n]
-            t = {"kind": "INPUT_OBJECT", "name": n, "inputFields": [{"name": a, "type": typeref(b, s), "defaultValue": None} for (a, b) in d["fields"]]}
+            t = {"kind": "INPUT_OBJECT", "name": n, "inputFields": [{"name": x[0], "type": typeref(x[1], s), "defaultValue": (x[2] if len(x) > 2 else None)} for x in d["fields"]]}
             if is_one_of_key:
                 t["isOneOf"] = bool(d.get("one_of"))
             types.append(t)
@@ -211,14 +215,16 @@ CORPUS = [
       "interfaces": {"Node": {"fields": [("id", "ID!"), ("old", "String", "gone")]}},
       "objects": {"User": {"fields": [("id", "ID!"), ("old", "String", "gone"), ("name", "String"), ("mood", "Mood!"), ("at", "DateTime"), ("friends", "[User!]"), ("legacy", "Int", "")], "implements": ["Node"]},
                   "Bot": {"fields": [("id", "ID!"), ("old", "String", "gone"), ("version", "Int!")], "implements": ["Node"]},
-                  "Query": {"fields": [("node", "Node"), ("user", "User"), ("search", "[Hit!]!"), ("find", "User")]}},
+                  "Query": {"fields": [("node", "Node"), ("user", "User"), ("search", "[Hit!]!", None, [("filter", "Filter"), ("limit", "Int!", "10"), ("moods", "[Mood!]")]), ("find", "User", None, [("id", "ID!")])]}},
       "unions": {"Hit": ["User", "Bot"]},
-      "inputs": {"Filter": {"fields": [("name", "String"), ("moods", "[Mood!]"), ("sub", "Filter")]}},
+      "inputs": {"Filter": {"fields": [("name", "String"), ("moods", "[Mood!]"), ("sub", "Filter"), ("limit", "Int!", "10"), ("page", "Int", "1"), ("tags", "[String!]!", "[]"), ("since", "DateTime")]}},
       "query": "Query"},
      ["query A { user { id name mood at friends { id } legacy } }",
       "query B { node { __typename id ... on User { name } ... on Bot { version } } }",
       "query C { search { __typename ... on User { id } ... on Bot { id version } } }",
-      "fragment F on User { id name } query D { user { ...F } find { ...F mood } }"]),
+      "fragment F on User { id name } query D { user { ...F } find(id: \"1\") { ...F mood } }",
+      "query E($filter: Filter, $limit: Int!, $moods: [Mood!]) { search(filter: $filter, limit: $limit, moods: $moods) { __typename ... on User { id } } }",
+      "query G($id: ID!) { find(id: $id) { id name } }"]),
 ]
 
 
